@@ -23,6 +23,21 @@ partial def hasArray : Codec → Bool
   | .unionOne c _ => hasArray c
   | _ => false
 
+/-- is there an array codec below a map codec (then a damaged map count can shift bytes into an array count) -/
+partial def arrayUnderMap : Codec → Bool
+  | .map v _ => hasArray v
+  | .array c _ => arrayUnderMap c
+  | .pointer c => arrayUnderMap c
+  | .record _ cs _ => cs.any arrayUnderMap
+  | .union cs => cs.any arrayUnderMap
+  | .unionOne c _ => arrayUnderMap c
+  | _ => false
+
+/-- may the recorded finding D14 explain memory / time spent on this case? only if an array codec can be reached by the
+damage: a mutated MAP count is not D14 unless an array sits below a map -/
+def d14Applies (codec : Codec) (tag : String) : Bool :=
+  hasArray codec && !(tag == "mcount" && !arrayUnderMap codec)
+
 def malCodec (env : Env) (op : String) (ty s bs : Sexp) (tag : String) (impl : Sexp) : Verdict :=
   match parseGoType ty, parseSchema s, asBytes bs with
   | some ty, some s, some bs =>
@@ -42,7 +57,7 @@ def malCodec (env : Env) (op : String) (ty s bs : Sexp) (tag : String) (impl : S
         | .list xs => (xs.getLast?.bind asNat).getD 0
         | _ => 0
       -- the recorded finding D14: arrays are pre-allocated / iterated from the declared block count
-      let d14 := if hasArray codec then "[D14 array-count-not-backed] " else ""
+      let d14 := if d14Applies codec tag then "[D14 array-count-not-backed] " else ""
       -- a panic is never part of D14 (that finding is about memory and time driven by the declared count)
       if cls == "panic" then .oracle s!"panic on malformed input ({tag}): {impl}"
       else if cls == "crash" then .oracle s!"{d14}process crashed on malformed input ({tag})"
@@ -73,7 +88,7 @@ def c06 (op : String) (args : List Sexp) : Verdict :=
         match parseGoType ty, parseSchema s with
         | some ty, some s =>
           match buildCodec regLib 200 s (some ty) false with
-          | .ok c => if hasArray c then "[D14 array-count-not-backed] " else ""
+          | .ok c => if d14Applies c tag then "[D14 array-count-not-backed] " else ""
           | _ => ""
         | _, _ => ""
       | _, _ => ""
